@@ -144,6 +144,21 @@ def row_edits(ctx, rep, spec, tree):
             rep.tie(f"binary-data validation of a level header with a {kind} entry: validator says {real} (raised={raised}), the Lean model {mv}", case)
 
 
+def raw_taste(path, **kw):
+    """the validator with the process pools it creates itself (no substituted pool): what a rejection does to a pool shows"""
+    from amr_kitchen.taste.taste import Taster
+    from ..common import quiet, alarm, CaseTimeout
+    try:
+        with alarm(120), quiet():
+            return bool(Taster(path, verbose=0, **kw)), None
+    except CaseTimeout:
+        return False, "TIMEOUT"
+    except BaseException as e:
+        if isinstance(e, KeyboardInterrupt):
+            raise
+        return False, type(e).__name__
+
+
 def after_rejection(ctx, rep, spec, tree, path):
     """a history in ONE process: a plotfile with a wrong recorded extremum is rejected under binary_data (failing mode: the
     validator raises part-way through its work), then the well-formed plotfile is validated under several option sets"""
@@ -157,12 +172,12 @@ def after_rejection(ctx, rep, spec, tree, path):
     tastelib.write_tree(t2, p2)
     case = {"spec": spec, "after_rejection": True}
     rep.case({"s": spec, "after_rejection": True}, nontrivial=True); rep.count("history:rejection-then-well-formed")
-    g, r = tastelib.real_taste(p2, nofail=False, binary_data=True)
+    g, r = raw_taste(p2, nofail=False, binary_data=True)
     if g or r is None:
         return          # not rejected: nothing to come after (the verdict itself is compared in row_edits)
-    for opts in (OPTS[3], OPTS[1], OPTS[0]):
+    for opts in (OPTS[3], OPTS[1]):
         for nofail in (False, True):
-            good, raised = tastelib.real_taste(path, nofail=nofail, **opts)
+            good, raised = raw_taste(path, nofail=nofail, **opts)
             if raised is not None or not good:
                 rep.fail(f"after another plotfile was rejected in the same process, a well-formed plotfile is reported bad "
                          f"(good={good}, raised={raised}, options {opts}, nofail={nofail})", case, obs={"good": good, "raised": raised})
